@@ -178,12 +178,21 @@ func mut(paths ...string) []fsAcc {
 	return a
 }
 
+// StatFault, when set, may make a successful FSStat answer "no such file" instead (a file system
+// that lags behind: the file is there, this one look does not see it).
+var StatFault func(path string) error
+
 func FSStat(p string) (os.FileInfo, error) {
 	if Cur == nil {
 		return os.Stat(p)
 	}
 	t := fsOp("stat", rd(p))
 	fi, err := os.Stat(p)
+	if StatFault != nil && err == nil {
+		if ferr := StatFault(p); ferr != nil {
+			fi, err = nil, ferr
+		}
+	}
 	fsDone(t, "stat", fmt.Sprint(p, err == nil), false, []string{p}, err)
 	return fi, err
 }
